@@ -1698,7 +1698,194 @@ def rule_dict(ctx):
               "indices 0..2 are reserved by the decoder (0 = absent, 1/2 = stream words) but hold %r" % prim[:3], "indices 0..2 reserved")
     dup = sorted({t for t in prim if prim.count(t) > 1} | {t for t in sec if sec.count(t) > 1} | (set(prim) & set(sec)))
     ctx.check("C01.dict", not dup, w, "duplicate tokens", "token(s) %s appear twice: index lookup and token lookup disagree" % dup[:5], "no duplicate token")
+    rule_dict_lookup(ctx, prim, sec)
     return prim, sec
+
+
+def rule_dict_lookup(ctx, prim, sec):
+    """the two lookups of the token dictionary, executed on an object built by the real constructor, for every word of both
+    lists: getIndex(word) names the list the word is in and its position there, getToken(position, secondary) gives the
+    word back; a string that is no word has no index"""
+    from ..absint import Interp, _Raise, NeedAtom, Budget, DomainGrew
+    repo = ctx.repo
+    cls = repo.cls(TOK, "TokenDictionary")
+    gi = repo.method(TOK, "TokenDictionary", "getIndex")
+    w = where(TOK, "TokenDictionary.getIndex", gi.lineno)
+    it = Interp(repo, {}, {})
+    it.max_steps = max(getattr(it, "max_steps", 0), 4000000)
+    env = {"@module": cls.module, "@owner": cls}
+    bad_i, bad_t = [], []
+    try:
+        o = it.construct(cls, [], {}, {"@module": cls.module, "@owner": None}, 0, None)
+
+        def plain(v):
+            v = it.force(v)
+            if v[0] == "c":
+                return v[1]
+            if v[0] == "list" and not (len(v) > 2 and v[2]) and all(x[0] == "c" for x in v[1]):
+                return tuple(x[1] for x in v[1])
+            raise LookupError("not a constant: %s" % (v,))
+        for words, secondary in ((prim, False), (sec, True)):
+            for pos, word in enumerate(words):
+                if words.index(word) != pos or (secondary and word in prim):
+                    continue            # duplicates are reported above
+                got = plain(it.method_call(o, "getIndex", [("c", word)], {}, env, 0, None))
+                if got is None or tuple(got) != (pos, secondary):
+                    bad_i.append("getIndex(%r) is %r, the word is entry %d of the %s dictionary" % (word, got, pos, "secondary" if secondary else "primary"))
+                try:
+                    back = plain(it.method_call(o, "getToken", [("c", pos), ("c", secondary)], {}, env, 0, None))
+                except _Raise as r:
+                    back = "raises " + r.text[:40]
+                if back != word:
+                    bad_t.append("getToken(%d, %s) is %r, not %r" % (pos, secondary, back, word))
+        for stranger in ("no such token \x00", "Xmlstreamstart"):
+            got = plain(it.method_call(o, "getIndex", [("c", stranger)], {}, env, 0, None))
+            if got is not None:
+                bad_i.append("getIndex(%r) is %r for a string that is in neither list" % (stranger, got))
+    except (_Raise, NeedAtom, Budget, DomainGrew, LookupError) as x:
+        ctx.undecided("C01.dict", w, "getIndex / getToken over every word", "the lookups could not be executed: %s" % (getattr(x, "text", x),))
+        return
+    n = len(prim) + len(sec)
+    ctx.check("C01.dict", not bad_i, w, "getIndex(word) = (position, which list) for every word", "; ".join(bad_i[:3]) + (" (+%d more)" % (len(bad_i) - 3) if len(bad_i) > 3 else "")
+              + ": the encoder writes a token byte the decoder reads as something else", "%d words: index and list as stored" % n)
+    ctx.check("C01.dict", not bad_t, where(TOK, "TokenDictionary.getToken", None), "getToken(position, list) = the word for every word", "; ".join(bad_t[:3]) + (" (+%d more)" % (len(bad_t) - 3) if len(bad_t) > 3 else ""),
+              "%d words come back" % n)
+
+
+# ------------------------------------------------------------------ C01.rt
+def rule_roundtrip(ctx, prim, sec):
+    """the codec executed end to end (abstract execution of the repository's own encoder, decoder, token dictionary and
+    node class on constant trees): protocolTreeNodeToBytes(tree) handed to getProtocolTreeNode gives back a tree with the
+    same tag, attributes, data and children in order.  The trees are chosen per branch of the format: every string form
+    (primary / each page of secondary tokens, JID with token and raw parts, nibble- and hex-packed of odd and even length
+    up to the 127 / 128 symbol limit, raw 8-bit with every byte value, the 255 / 256 length boundary, a leading or doubled
+    '@'), data of the length classes below 1 MiB, attribute and child counts across the 8 / 16 bit list headers, nesting."""
+    from ..absint import Interp, Obj, _Raise, _Return, NeedAtom, Budget, DomainGrew, C_NONE
+    repo = ctx.repo
+    enc, dec = repo.cls(ENC, "WriteEncoder"), repo.cls(DEC, "ReadDecoder")
+    tok, ptn = repo.cls(TOK, "TokenDictionary"), repo.cls(PTN, "ProtocolTreeNode")
+    w = where(ENC, "WriteEncoder.protocolTreeNodeToBytes", None)
+
+    def raw_node(itp, c, args, kwargs, env, depth, e):
+        if c is not ptn:
+            return None
+        ob = Obj(c)
+        k, init = repo.find_method(c, "__init__")
+        try:
+            itp.call_function(init, k, ("obj", ob), args, kwargs, depth=depth + 1)
+        except _Return:
+            pass
+        return ("obj", ob)
+    it = Interp(repo, {}, {}, hooks={"construct": raw_node})
+    it.max_steps = 10 ** 9
+    try:
+        td = it.construct(tok, [], {}, {"@module": tok.module, "@owner": None}, 0, None)
+        e_ = it.construct(enc, [td], {}, {"@module": enc.module, "@owner": None}, 0, None)
+        d_ = it.construct(dec, [td], {}, {"@module": dec.module, "@owner": None}, 0, None)
+    except (_Raise, NeedAtom, Budget, DomainGrew) as x:
+        ctx.undecided("C01.rt", w, "codec objects", "constructors could not be executed: %s" % (getattr(x, "text", x),))
+        return
+
+    def N(tag, attrs=None, children=None, data=None):
+        return ("N", tag, attrs, children, data)
+
+    def build(t):
+        _n, tag, attrs, children, data = t
+        a = ("dict", {k: ("c", v) for k, v in attrs.items()}) if attrs is not None else C_NONE
+        ch = ("list", [build(c) for c in children]) if children is not None else C_NONE
+        return it.construct(ptn, [("c", tag), a, ch, ("c", data) if data is not None else C_NONE], {}, {"@module": ptn.module, "@owner": None}, 0, None)
+
+    def plain(t):
+        _n, tag, attrs, children, data = t
+        return (tag, dict(attrs or {}), [plain(c) for c in (children or [])], data)
+
+    def dump(v):
+        v = it.force(v)
+        if v[0] == "obj" and v[1].cls is ptn:
+            f = v[1].fields
+            at = dump(f.get("attributes", C_NONE))
+            ch = dump(f.get("children", C_NONE))
+            dt = dump(f.get("data", C_NONE))
+            return (dump(f.get("tag", C_NONE)), at if at is not None else {}, ch if ch is not None else [], bytes(dt) if isinstance(dt, (bytes, bytearray)) else dt)
+        if v[0] == "c":
+            return v[1]
+        if v[0] == "dict" and not (len(v) > 2 and v[2]):
+            return {k: dump(x) for k, x in v[1].items()}
+        if v[0] == "list" and not (len(v) > 2 and v[2]):
+            return [dump(x) for x in v[1]]
+        return ("?", str(v)[:60])
+    latin = "".join(chr(i) for i in range(1, 256) if chr(i) != "@")
+    pages = [sec[i] for i in (0, 255, 256, 511, 512, 767, 768, len(sec) - 1) if 0 <= i < len(sec)]
+    strings = ["a", "abc", "@abc", "@", "a@@b", "x" * 255, "y" * 256, "z" * 300, latin,
+               "0", "12", "123", "1-2.3", "-.", "9" * 127, "9" * 128, "A", "AB", "ABC", "0F1E2D", "F" * 127, "F" * 128, "1A-", "abc-1",
+               prim[3], prim[len(prim) - 1], "4915112345678@s.whatsapp.net", "4915-1500000000@g.us", "abc@%s" % pages[0] if pages else "abc@x", "%s@%s" % (prim[5], prim[6])] + pages
+    trees = []
+    for i, s_ in enumerate(strings):
+        trees.append(("attribute value %r" % (s_ if len(s_) <= 24 else s_[:10] + "...(%d)" % len(s_)), N("iq", {"k": s_})))
+    for s_ in ["abc", "@abc", "x" * 256, prim[4], pages[0] if pages else "lg", "a@b", "12345"]:
+        trees.append(("tag / attribute key %r" % (s_[:16]), N(s_, {s_ + "k": "v"})))
+    for n_ in (0, 1, 255, 256, 4000):
+        trees.append(("data of %d bytes" % n_, N("enc", {"v": "2"}, None, bytes((7 * i + n_) % 256 for i in range(n_)))))
+    trees.append(("data with every byte value", N("enc", None, None, bytes(range(256)))))
+    trees.append(("data that reads like a packed / token string", N("enc", None, None, b"123456")))
+    for n_ in (0, 1, 2, 127, 128) + ((126, 300) if ctx.tier == "thorough" else ()):
+        trees.append(("%d attributes" % n_, N("iq", {"k%d" % i: "%d" % i for i in range(n_)}, None, b"d" if n_ in (127, 300) else None)))
+    for n_ in (1, 2, 255, 256) + ((300,) if ctx.tier == "thorough" else ()):
+        trees.append(("%d children" % n_, N("list", {"n": str(n_)}, [N("i") if i % 50 else N("item", {"i": str(i)}) for i in range(n_)])))
+    trees.append(("nesting", N("iq", {"id": "1", "to": "a@b"}, [N("a", None, [N("b", {"x": "y"}, [N("c", None, None, b"deep")]), N("b2")]), N("d", None, None, b"")])))
+    bad, und, n_ok = [], [], 0
+    env_e, env_d = {"@module": enc.module, "@owner": enc}, {"@module": dec.module, "@owner": dec}
+    import time as _time
+    for label, t in trees:
+        _t0 = _time.time()
+        try:
+            node = build(t)
+            wire = it.force(it.method_call(e_, "protocolTreeNodeToBytes", [node], {}, env_e, 0, None))
+            if wire[0] == "list" and all(x[0] == "c" and isinstance(x[1], int) for x in wire[1]):
+                octets = [x[1] for x in wire[1]]
+            elif wire[0] == "c" and isinstance(wire[1], (bytes, bytearray, list)):
+                octets = list(wire[1])
+            else:
+                und.append("%s: the encoder's output is not a list of constants" % label)
+                continue
+            if any(not (0 <= b_ <= 255) for b_ in octets):
+                bad.append("%s: the encoder emits a value outside 0..255 (%s)" % (label, [b_ for b_ in octets if not 0 <= b_ <= 255][:2]))
+                continue
+            back = it.method_call(d_, "getProtocolTreeNode", [("list", [("c", b_) for b_ in octets])], {}, env_d, 0, None)
+        except _Raise as r:
+            bad.append("%s: raises %s" % (label, r.text[:70]))
+            continue
+        except (NeedAtom, Budget, DomainGrew) as x:
+            und.append("%s: %s" % (label, x))
+            continue
+        if os.environ.get("SA_DEBUG"):
+            print("  %.2fs %s" % (_time.time() - _t0, label))
+        got, want = dump(back), plain(t)
+        if got == want:
+            n_ok += 1
+            continue
+
+        def diff(a, b, path="tree"):
+            if not (isinstance(a, tuple) and isinstance(b, tuple) and len(a) == 4 and len(b) == 4):
+                return "%s: %r instead of %r" % (path, a, b)
+            for i, nm in enumerate(("tag", "attributes", "children", "data")):
+                if a[i] != b[i]:
+                    if nm == "children" and isinstance(a[i], list) and len(a[i]) == len(b[i]):
+                        for j, (x, y) in enumerate(zip(a[i], b[i])):
+                            if x != y:
+                                return diff(x, y, "%s/child %d" % (path, j))
+                    if nm == "attributes" and isinstance(a[i], dict):
+                        ks = [k for k in set(a[i]) | set(b[i]) if a[i].get(k) != b[i].get(k)]
+                        return "%s attribute %r: %r instead of %r" % (path, ks[0], str(a[i].get(ks[0]))[:40], str(b[i].get(ks[0]))[:40])
+                    return "%s %s: %s instead of %s" % (path, nm, str(a[i])[:50], str(b[i])[:50])
+            return path
+        bad.append("%s comes back different - %s" % (label, diff(got, want)))
+    ctx.units["C01.roundtrip_trees"] = len(trees)
+    if und and not bad:
+        ctx.undecided("C01.rt", w, "codec round trip by execution", "%d of %d trees could not be followed: %s" % (len(und), len(trees), und[0]))
+        return
+    ctx.check("C01.rt", not bad, w, "encode then decode gives the same tree (%d trees across the branches of the format)" % len(trees),
+              "; ".join(bad[:3]) + (" (+%d more)" % (len(bad) - 3) if len(bad) > 3 else ""), "%d trees come back equal" % n_ok)
 
 
 # ------------------------------------------------------------------ C01.eq
@@ -1772,7 +1959,8 @@ def run(ctx):
     ctx.rule("C01.layer", "the coder layer writes the encoding of the stanza it was given", floor=1)
     ctx.rule("C01.sent", "stanzas built by the library's own entities are well-formed for the codec (C09.codec adopted)", floor=40)
     ctx.rule("C01.count", "the node list header counts exactly the items written", floor=4)
-    ctx.rule("C01.dict", "dictionary sizes / reserved entries", floor=4)
+    ctx.rule("C01.dict", "dictionary sizes / reserved entries; both lookups executed for every word", floor=6)
+    ctx.rule("C01.rt", "encoder -> decoder executed end to end on trees chosen per branch of the format", floor=1)
     ctx.rule("C01.eq", "tree equality compares every component, children in both directions with a fresh flag", floor=7)
     ctx.assume("frame < 16 MiB (enforced by C05.guard); list size < 65536 (no larger list form in the format); strings are Latin-1")
     ctx.guarded("C01.bind", rule_bind, ctx)
@@ -1787,7 +1975,9 @@ def run(ctx):
     ctx.guarded("C01.str", rule_str, ctx)
     ctx.guarded("C01.node", rule_node, ctx)
     ctx.guarded("C01.layer", rule_layer, ctx)
-    ctx.guarded("C01.dict", rule_dict, ctx)
+    dicts = ctx.guarded("C01.dict", rule_dict, ctx)
+    if dicts and dicts[0] and dicts[1]:
+        ctx.guarded("C01.rt", rule_roundtrip, ctx, dicts[0], dicts[1])
     ctx.guarded("C01.eq", rule_eq, ctx)
     # the stanzas the library itself builds are well-formed for the codec (C09.codec), adopted
     from . import c09
